@@ -57,9 +57,16 @@ def outside_all(cx, k):
     return z3.ForAll([b], Implies(And(b >= 0, b < nb), Or(k < bk * sp, k >= bk * sp + nx)))
 
 
+EF_RUNS = [['wake', 16, '1', 0, 64, 1], ['wake', 16, '101', 20, 250, 2], ['wake', 16, '1011', 33, 258, 3], ['wake', 8, '11', 9, 30, 4],
+           ['wake', 12, '10011', 13, 74, 5], ['wake', 16, '11', 17, 66, 6]]
+
+
 class EFMethod(Contract):
     tu = 'src/PS/ElectricField.cpp'
     params = []
+
+    def replay(self, o, model, pid):
+        return {'harness': 'ef_replay', 'runs': EF_RUNS}
 
     def setup(self, cx):
         ef_setup(cx)
